@@ -269,6 +269,77 @@ def cbResF (cb : CBase) (ptr : Nat) (fb : FBase) : DummyF :=
   if cb == .void || ptr ≥ 1 then ⟨.cptr, false, .scalar⟩ else ⟨fb, false, .scalar⟩
 
 
+
+/-! ## function result: `C_return_type` in `Wrapc.wrap_function` against the result declaration (or the choice of
+    `subroutine`) in `Wrapf.wrap_function_interface` -/
+
+/-- everything the two emitters read to choose the result type.  The C side reads its result entry (`result_blk`), the
+    Fortran side its own (`c_result_blk`, looked up through the `result` path; same interface signature by the table
+    theorem `result_paths_agree`) -/
+structure ResultSpec where
+  subroutine : Bool            -- ast.get_subprogram() == "subroutine"
+  cbase : CBase                -- class of result typemap c_type
+  fbase : FBase                -- class of (f_c_type or f_type)                        (bind_c)
+  ptr : Nat                    -- indirections of the result declarator               (gen_arg_as_c)
+  farray : Bool                -- bind_c would append `(*)`
+  derefScalar : Bool           -- metaattrs["deref"] == "scalar"                      (wrapc: as_scalar)
+  derefPtr : Bool              -- metaattrs["deref"] in pointer / allocatable / raw   (wrapf: type(C_PTR))
+  retTypeC : Option ParamC     -- C entry: return_type formatted and classified
+  hasRetF : Bool               -- Fortran entry: return_type is set
+  retTypeF : Option FBase      -- ... class of typemap.lookup_type(return_type).f_type (none: no such type)
+  returnCptr : Bool            -- Fortran entry: return_cptr
+  resultDecl : Option DummyF   -- Fortran entry: f_result_decl
+  deriving Repr
+
+/-- `fmt_func.C_return_type` -/
+def resultC (r : ResultSpec) : ParamC :=
+  match r.retTypeC with
+  | some p => p
+  | none => if r.derefScalar then ⟨r.cbase, 0⟩ else ⟨r.cbase, r.ptr⟩
+
+/-- `F_C_subprogram == "function"`: the declaration is a function, or the entry changes a subroutine into one -/
+def isFunctionF (r : ResultSpec) : Bool := !r.subroutine || r.hasRetF
+
+/-- the result declaration of the interface body, `none` for a subroutine; order of precedence as in the code -/
+def resultF (r : ResultSpec) : Option DummyF :=
+  if !isFunctionF r then none
+  else some (
+    match r.resultDecl with
+    | some d => d
+    | none =>
+      if r.returnCptr then ⟨.cptr, false, .scalar⟩
+      else if r.hasRetF then ⟨r.retTypeF.getD .procedure, false, .scalar⟩   -- lookup_type failing is not interoperable
+      else if r.derefPtr then ⟨.cptr, false, .scalar⟩
+      else ⟨r.fbase, false, if r.farray then .array else .scalar⟩)
+
+def isVoidC (p : ParamC) : Bool := p.base == .void && p.ptr == 0
+
+/-- C return type against `subroutine` / function result (18.3.6 (2)) -/
+def resInteropOpt (c : ParamC) : Option DummyF → Bool
+  | none => isVoidC c
+  | some f => !isVoidC c && resInterop c f
+
+/-- side conditions: the two entries are consistent about a forced return type (table theorems `all_entries_ok`,
+    `result_paths_agree`), the declaration is a subroutine exactly when it returns plain `void`, a pointer result is
+    `type(C_PTR)` on the Fortran side, a scalar result has an interoperable typemap row and is not declared an array -/
+def resultOK (r : ResultSpec) : Bool :=
+  match r.retTypeC with
+  | some p =>
+    if isVoidC p then r.subroutine && !r.hasRetF                       -- destructor entry
+    else r.resultDecl.isNone && isFunctionF r &&
+         (if p.ptr ≥ 1 then r.returnCptr || (r.hasRetF && r.retTypeF == some .cptr)
+          else !r.returnCptr && r.hasRetF &&
+               (match r.retTypeF with | some fb => baseMatch p.base fb | none => false))
+  | none =>
+    !r.hasRetF && r.subroutine == (r.cbase == .void && r.ptr == 0) &&
+    (r.subroutine ||
+      (let cptr := if r.derefScalar then 0 else r.ptr
+       match r.resultDecl with
+       | some d => resInterop ⟨r.cbase, cptr⟩ d
+       | none =>
+         if r.returnCptr || r.derefPtr then cptr ≥ 1
+         else !r.farray && (if cptr ≥ 1 then r.fbase == .cptr else baseMatch r.cbase r.fbase)))
+
 /-! ## user structs: `Wrapc.wrap_struct` (C copy of the struct) and `Wrapf.wrap_struct` (bind(C) derived type)
     walk the same `node.variables` list -/
 
